@@ -238,6 +238,14 @@ def roles_run(ctx):
                 kv = dict(t.split("=") for t in l.split()[1:])
                 for k, v in kv.items():
                     defuse[f"{k}={v}"] = defuse.get(f"{k}={v}", 0) + 1
+                # P3R.C09C.lower_defuse: guarded builder state (g=1, p=1; generated programs are Reachable, hence Ok) => l=1
+                if kv.get("g") == "1" and kv.get("p") == "1" and kv.get("l") == "0":
+                    violations.append({"class": "model-disagreement",
+                                       "what": "hintsGuarded and privOk hold but the lowered list is not certified "
+                                               "(contradicts P3R.C09C.lower_defuse)",
+                                       "replay": {"correspondence": "driver defuse line"}, "no_input": True})
+                gk = f"guarded={kv.get('g')}.privOk={kv.get('p')}.optKeeps={kv.get('k')}.cert={kv.get('c')}"
+                defuse[gk] = defuse.get(gk, 0) + 1
                 if cur_ok:
                     balanced = cur_net is not None and all(x == "0" for x in cur_net)
                     key = f"prep-ok.cert={kv.get('c')}.balanced={int(balanced)}"
@@ -278,7 +286,10 @@ def roles_run(ctx):
         "rule": "c = certificate of the compiled circuit (hypothesis of compiled_bus_balanced_of_defuse), l / d = of the lowering's output / "
                 "the de-duplicated list; prep-ok.cert=1.balanced=1 are the circuits on which the theorem applies and the real columns "
                 "(compared cell by cell above) balance; cert=0 on a compiled circuit would be a counterexample to the unproved "
-                "step 'compile => defUse' (none expected from the public builder API with primitive tables)"}
+                "step 'compile => defUse' (none expected from the public builder API with primitive tables); "
+                "g / p = hintsGuarded / privOk of the builder state (hypotheses of P3R.C09C.lower_defuse, which is total: g=1,p=1 => l=1 is "
+                "cross-checked), k = optKeeps (certificate of the lowered list => of the optimised list; the remaining per-program step of "
+                "P3R.C09C.compiled_bus_balanced_of_optKeeps: guarded=1.privOk=1.optKeeps=1 are the programs on which that theorem applies)"}
     for k in ("busaudit_class_counts", "busaudit_samples", "busaudit_proved", "busaudit_prove_notes"):
         if k in npo_cov:
             cov[k] = npo_cov[k]
@@ -329,7 +340,8 @@ CHECKS = {
         "assumptions": ["zero divisors: no guarantee is checked when some divisor evaluates to 0 (as the property states)"],
     },
     "C09": {
-        "lean_modules": ["P3R.Props.C09", "P3R.Model.DefUse", "P3R.Props.C09Total", "P3R.Witness.C09Total"],
+        "lean_modules": ["P3R.Props.C09", "P3R.Model.DefUse", "P3R.Props.C09Total", "P3R.Witness.C09Total",
+                         "P3R.Props.C09Compile", "P3R.Witness.C09Compile"],
         "lean_exes": ["p3r_driver_c09n"],
         "theorems": ["P3R.C09.one_creator", "P3R.C09.mult_eq_reads", "P3R.C09.created_iff_defined",
                      "P3R.C09.net_zero_iff", "P3R.C09.bus_balanced",
@@ -341,7 +353,13 @@ CHECKS = {
                      "P3R.C09T.serveAll_gen", "P3R.C09T.reads_defined_iff", "P3R.C09T.bus_balanced_iff",
                      "P3R.Witness.C09Total.good_reachable", "P3R.Witness.C09Total.good_balanced",
                      "P3R.Witness.C09Total.bad_reachable", "P3R.Witness.C09Total.bad_unbalanced", "P3R.Witness.C09Total.bad_role",
-                     "P3R.Witness.C09Total.defuse_hypothesis_needed", "P3R.Witness.C09Total.bad_then_a_balanced"],
+                     "P3R.Witness.C09Total.defuse_hypothesis_needed", "P3R.Witness.C09Total.bad_then_a_balanced",
+                     # compiler side (Props/C09Compile.lean): the lowering emits a certified list for EVERY guarded builder state
+                     "P3R.C09C.sdu_defUse", "P3R.C09C.emit_shape", "P3R.C09C.guard_slot", "P3R.C09C.lower_sdu", "P3R.C09C.lower_defuse",
+                     "P3R.C09C.compile_defuse_of_optKeeps", "P3R.C09C.compiled_bus_balanced_of_optKeeps",
+                     "P3R.Witness.C09Compile.good_guarded", "P3R.Witness.C09Compile.good_optKeeps",
+                     "P3R.Witness.C09Compile.bad_not_guarded", "P3R.Witness.C09Compile.tbl_reachable",
+                     "P3R.Witness.C09Compile.tbl_dedup_breaks", "P3R.Witness.C09Compile.hnt_compiles_balanced"],
         "run": roles_run,
         "trusted_base": ["non-primitive rows: the theorems cover the role scan of generate_preprocessed_columns for ANY per-plug-in request function; "
                          "the concrete request functions (posRow / recRow / sumExposed: Poseidon2 sponge + arity-2/arity-4 Merkle rows, recompose with / without "
